@@ -107,6 +107,7 @@ class Bound:
 class State:
     def __init__(self):
         self.env: dict[str, Any] = {}
+        self.frames: list[dict[str, Any]] = []  # environments of the callers of the function being interpreted (innermost last)
         self.pc: list[Any] = []
         self.trace: list[str] = []  # ghost trace of observable effects (contract-specific)
         self.ghost: dict[str, Any] = {}
@@ -116,6 +117,7 @@ class State:
         st = State()
         memo: dict[int, Any] = {}
         st.env = {k: _clone(v, memo) for k, v in self.env.items()}
+        st.frames = [{k: _clone(v, memo) for k, v in fr.items()} for fr in self.frames]
         st.pc = list(self.pc)
         st.trace = list(self.trace)
         st.ghost = {k: _clone(v, memo) for k, v in self.ghost.items()}
@@ -216,6 +218,11 @@ class Executor:
         self.natives: dict[str, Callable] = {}
         self.native_objs: dict[int, Callable] = {}  # id(real python object) -> handler
         self.inline: set[Any] = set()  # real function objects to interpret instead of calling
+        self.auto_inline_prefixes: tuple[str, ...] = ("ampform",)  # plain functions of these packages are interpreted when they are not natives
+        self.auto_inlined: set[str] = set()
+        self.keep_abstract: set[str] = set()  # names / qualnames of package functions that stay uninterpreted (assumed pure)
+        self.abstracted_calls: set[str] = set()  # package functions that had to be abstracted (their body left the supported subset)
+        self._inline_depth = 0
         self.invariants: dict[tuple[str, int], Callable] = {}  # (function name, loop ordinal) -> inv(ex, st) -> z3 Bool
         self.variants: dict[tuple[str, int], Callable] = {}
         self.havocs: dict[tuple[str, int], Callable] = {}  # (function, loop ordinal) -> havoc(ex, st): replace loop-modified symbolic maps by fresh ones
@@ -337,23 +344,26 @@ class Executor:
                         cenv[nm] = cell.cell_contents
                     except ValueError:
                         pass
-        saved = st.env
+        # the caller's environment is kept ON THE STATE (st.frames), so that a path that forks inside the callee carries its own copy
+        # of the caller's locals and of the heap objects they point to (State.clone copies frames with the same memo as env): a shared
+        # saved dict would let the first outcome's continuation (e.g. the next loop iteration) overwrite locals of the others
         env = dict(cenv)
         self._bind_params(node.args, env, args, kwargs, st, glob, qual)
+        st.frames.append(st.env)
         st.env = env
         self.func_stack.append(qual)
         frame = (glob, qual)
         try:
             if isinstance(node, ast.Lambda):
                 for st2, v in self.ev(node.body, st, frame):
-                    st2.env = saved
+                    st2.env = st2.frames.pop()
                     if isinstance(v, Exc):
                         yield st2, "raise", v
                     else:
                         yield st2, "return", v
                 return
             for st2, kind, val in self.block(node.body, st, frame):
-                st2.env = saved
+                st2.env = st2.frames.pop()
                 if kind == "next":
                     yield st2, "return", None
                 elif kind in {"return", "raise"}:
@@ -1260,6 +1270,14 @@ class Executor:
             h = self.lookup_native_method(o, attr)
             if h is not None:
                 return Bound(h, o)
+            if "__map__" in o.attrs and attr in _SMAP_METHODS:
+                return Bound(_SMAP_METHODS[attr], o)
+            if o.real_class is not None and not hasattr(o.real_class, attr) and attr.startswith("__") and not attr.endswith("__"):
+                # a private name used inside the class body: Python mangles it with the name of the class that defines the method
+                for klass in o.real_class.__mro__:
+                    if hasattr(o.real_class, f"_{klass.__name__.lstrip('_')}{attr}"):
+                        attr = f"_{klass.__name__.lstrip('_')}{attr}"
+                        break
             if o.real_class is not None and hasattr(o.real_class, attr):
                 raw = inspect.getattr_static(o.real_class, attr)
                 if isinstance(raw, property):
@@ -1392,7 +1410,7 @@ class Executor:
         if isinstance(f, tuple) and f and f[0] == "__property__":
             raise Unsupported("calling a property")
         if isinstance(f, Bound):
-            if callable(f.func) and not isinstance(f.func, Closure) and f.func in self.natives.values():
+            if callable(f.func) and not isinstance(f.func, Closure) and (f.func in self.natives.values() or f.func in _SMAP_METHODS.values()):
                 yield from f.func(self, st, [f.self_val, *args], kwargs)
                 return
             yield from self.apply(f.func, [f.self_val, *args], kwargs, st, src_name)
@@ -1435,13 +1453,15 @@ class Executor:
             seq = self.concrete_seq(args[0], st)
             yield st, (tuple(seq) if f is builtins.tuple else list(seq))
             return
-        if f is builtins.dict and not kwargs and len(args) <= 1:
+        if f is builtins.dict and len(args) <= 1:
             if not args:
-                yield st, {}
+                out = {}
             elif isinstance(args[0], dict):
-                yield st, dict(args[0])
+                out = dict(args[0])
             else:
-                yield st, {_hashable(k): v for k, v in self.concrete_seq(args[0], st)}
+                out = {_hashable(k): v for k, v in self.concrete_seq(args[0], st)}
+            out.update(kwargs)  # dict(mapping, key=value, ...): keyword names are concrete strings
+            yield st, out
             return
         if f is builtins.zip:
             seqs = [self.concrete_seq(a, st) for a in args]
@@ -1462,6 +1482,25 @@ class Executor:
             else:
                 yield st, f(vals)
             return
+        # a plain function of the package under verification that is neither a native nor explicitly inlined (typically a private
+        # helper a refactoring extracted): interpret its body; only if that leaves the supported subset fall back to the abstraction
+        import types as _types
+
+        if isinstance(target, _types.FunctionType) and (getattr(target, "__module__", "") or "").startswith(self.auto_inline_prefixes) and self._inline_depth < 6:
+            # interpreted on the caller's own state (no trial run: natives may have side effects such as call counters). If the body
+            # leaves the supported subset, so does the caller: Unsupported propagates (-> 'outside the subset', undecided). Functions a
+            # contract wants to keep as uninterpreted assumptions are listed in `keep_abstract`.
+            if getattr(target, "__qualname__", "") not in self.keep_abstract and getattr(target, "__name__", "") not in self.keep_abstract:
+                self.auto_inlined.add(getattr(target, "__qualname__", "?"))
+                self._inline_depth += 1
+                try:
+                    for st2, kind, val in self.call_function(target, st, args, kwargs):
+                        yield st2, val
+                finally:
+                    self._inline_depth -= 1
+                return
+            self.abstracted_calls.add(getattr(target, "__qualname__", "?"))
+            ABSTRACTED_PACKAGE_CALLS.add(getattr(target, "__qualname__", "?"))
         # uninterpreted function of its arguments (A-pure)
         nm = src_name or getattr(f, "__qualname__", None) or (str(f.t) if isinstance(f, SV) else "fn")
         arg_terms = [self.as_obj(a) for a in args] + [self.as_obj(v) for _, v in sorted(kwargs.items())]
@@ -1470,6 +1509,40 @@ class Executor:
             nm = "apply"
         uf = self.func(f"call_{nm}_{len(arg_terms)}" + "".join(f"_{k}" for k in sorted(kwargs)), *(["obj"] * len(arg_terms)), "obj")
         yield st, SV(uf(*arg_terms) if arg_terms else z3.Const(f"call_{nm}_0", Obj), "obj")
+
+
+def _smap_get(ex, st, args, kwargs):
+    o, k = args[0], ex.as_obj(args[1])
+    m = o.attrs["__map__"]
+    default = ex.as_obj(args[2] if len(args) > 2 else kwargs.get("default"))
+    yield st, SV(z3.If(z3.Select(m.has, k), z3.Select(m.val, k), default), "obj")
+
+
+def _smap_setdefault(ex, st, args, kwargs):
+    o, k = args[0], ex.as_obj(args[1])
+    m = o.attrs["__map__"]
+    default = ex.as_obj(args[2] if len(args) > 2 else kwargs.get("default"))
+    new_val = z3.If(z3.Select(m.has, k), z3.Select(m.val, k), default)
+    o.attrs["__map__"] = SMap(z3.Store(m.has, k, True), z3.Store(m.val, k, new_val))
+    yield st, SV(new_val, "obj")
+
+
+def _smap_update(ex, st, args, kwargs):
+    o = args[0]
+    src = args[1] if len(args) > 1 else {}
+    if not isinstance(src, dict):
+        raise Unsupported("update of a symbolic map with something that is not a concrete dict")
+    m = o.attrs["__map__"]
+    has, val = m.has, m.val
+    for k, v in {**src, **kwargs}.items():
+        kk = ex.as_obj(k.v if hasattr(k, "v") and type(k).__name__ == "_HK" else k)
+        has, val = z3.Store(has, kk, True), z3.Store(val, kk, ex.as_obj(v))
+    o.attrs["__map__"] = SMap(has, val)
+    yield st, None
+
+
+_SMAP_METHODS = {"get": _smap_get, "setdefault": _smap_setdefault, "update": _smap_update}
+ABSTRACTED_PACKAGE_CALLS: set[str] = set()  # process-wide: package functions some executor had to abstract (read by vlib/core.py)
 
 
 def _has_sym(v, depth=0) -> bool:
